@@ -275,6 +275,8 @@ def run(ctx):
             # ---- h  a backend with mutable static storage is not re-entrant: digests go wrong under concurrent use
             from . import c19
             nst = c19.static_inventory(ck, prog, config, 'C18-h', unit_filter=lambda u: '/hash/bundled/' in u or '/hash/openssl/' in u)
+            from ..rules import extra as _x
+            _x.check_const_input(ck, prog, config, 'C18-i', lambda u: '/hash/bundled/' in u or '/hash/openssl/' in u or u.endswith('hash/hash.c'))
             ck.min_instances('objects with static storage in the hash backends', nst, 4)
             # ---- e  finalisation layout, for every possible number of buffered bytes
             from ..rules.layout import LayoutInterp, Ptr, check_padding, length_bytes
